@@ -331,4 +331,165 @@ theorem eqv_hsla_of_rgba (c : Rgba Rat) (h : c.WF) (f : Bool) :
   obtain ⟨e1, e2, e3, e4⟩ := Rgba.hsl_roundtrip c h
   exact eqv_spec_of_chan _ _ e1 e2 e3 e4
 
+theorem cmin_mem (a b : Rat) : cmin a b = a ∨ cmin a b = b := by unfold cmin; split_ifs <;> simp
+theorem cmax_mem (a b : Rat) : cmax a b = a ∨ cmax a b = b := by unfold cmax; split_ifs <;> simp
+
+/-- `min(r, b, g) / 255` (convert.rs `From<&Rgba> for Hwba`) is the `min` of `max_min_largest` -/
+theorem min3_div (r g b : Rat) :
+    cmin (cmin r b) g / 255 = minOf (r / 255) (g / 255) (b / 255) := by
+  have hle : cmin (cmin r b) g ≤ r ∧ cmin (cmin r b) g ≤ g ∧ cmin (cmin r b) g ≤ b :=
+    ⟨le_trans (cmin_le_left _ _) (cmin_le_left _ _), cmin_le_right _ _,
+      le_trans (cmin_le_left _ _) (cmin_le_right _ _)⟩
+  have hmem : cmin (cmin r b) g = r ∨ cmin (cmin r b) g = g ∨ cmin (cmin r b) g = b := by
+    rcases cmin_mem (cmin r b) g with e | e
+    · rcases cmin_mem r b with e' | e'
+      · left; rw [e, e']
+      · right; right; rw [e, e']
+    · right; left; exact e
+  have h255 : (0 : Rat) < 255 := by norm_num
+  apply le_antisymm
+  · exact minOf_ge _ _ _ _ (div_le_div_of_nonneg_right hle.1 h255.le)
+      (div_le_div_of_nonneg_right hle.2.1 h255.le) (div_le_div_of_nonneg_right hle.2.2 h255.le)
+  · have := minOf_le (r / 255) (g / 255) (b / 255)
+    rcases hmem with e | e | e <;> rw [e]
+    · exact this.1
+    · exact this.2.1
+    · exact this.2.2
+
+/-- `max(r, b, g) / 255` is the `max` of (specified) `max_min_largest` -/
+theorem max3_div (r g b : Rat) :
+    cmax (cmax r b) g / 255 = maxOf CQuirks.spec (r / 255) (g / 255) (b / 255) := by
+  have hge : r ≤ cmax (cmax r b) g ∧ g ≤ cmax (cmax r b) g ∧ b ≤ cmax (cmax r b) g :=
+    ⟨le_trans (cmax_ge_left _ _) (cmax_ge_left _ _), cmax_ge_right _ _,
+      le_trans (cmax_ge_right _ _) (cmax_ge_left _ _)⟩
+  have hmem : cmax (cmax r b) g = r ∨ cmax (cmax r b) g = g ∨ cmax (cmax r b) g = b := by
+    rcases cmax_mem (cmax r b) g with e | e
+    · rcases cmax_mem r b with e' | e'
+      · left; rw [e, e']
+      · right; right; rw [e, e']
+    · right; left; exact e
+  have h255 : (0 : Rat) < 255 := by norm_num
+  apply le_antisymm
+  · have := le_maxOf (r / 255) (g / 255) (b / 255)
+    rcases hmem with e | e | e <;> rw [e]
+    · exact this.1
+    · exact this.2.1
+    · exact this.2.2
+  · rcases maxOf_mem CQuirks.spec (r / 255) (g / 255) (b / 255) with e | e | e <;> rw [e]
+    · exact div_le_div_of_nonneg_right hge.1 h255.le
+    · exact div_le_div_of_nonneg_right hge.2.1 h255.le
+    · exact div_le_div_of_nonneg_right hge.2.2 h255.le
+
+
+theorem hwb_toHsla_eval (h mx mn a : Rat) (mn0 : 0 ≤ mn) (hle : mn ≤ mx) (mx1 : mx ≤ 1)
+    (a0 : 0 ≤ a) (a1 : a ≤ 1) :
+    (Hwba.new CQuirks.spec h mn (1 - mx) a).toHsla CQuirks.spec =
+      Hsla.new CQuirks.spec h
+        (if ((mx + mn) / 2 == 0 || (mx + mn) / 2 == 1) = true then 0
+         else (mx - (mx + mn) / 2) / cmin ((mx + mn) / 2) (1 - (mx + mn) / 2))
+        ((mx + mn) / 2) a false := by
+  have hs : ¬ (1 < mn + (1 - mx)) := by linarith
+  simp only [Hwba.new, CQuirks.spec, Bool.false_eq_true, if_false,
+    clamp_id 0 1 mn mn0 (by linarith), clamp_id 0 1 (1 - mx) (by linarith) (by linarith), hs,
+    clamp_id 0 1 a a0 a1, Hwba.toHsla, midpoint]
+  have e1 : (1 - (1 - mx) + mn) / 2 = (mx + mn) / 2 := by ring
+  have e2 : ∀ l : Rat, 1 - (1 - mx) - l = mx - l := by intro l; ring
+  rw [e1]
+  simp only [e2]
+
+
+/-- rgb → hwb → hsl is rgb → hsl (specified model, well-formed rgba) -/
+theorem Rgba.hwb_toHsla_eq (c : Rgba Rat) (h : c.WF) :
+    (c.toHwba CQuirks.spec).toHsla CQuirks.spec = c.toHsla CQuirks.spec := by
+  have hwf := h
+  obtain ⟨⟨r0, r1⟩, ⟨g0, g1⟩, ⟨b0, b1⟩, ⟨a0, a1⟩⟩ := h
+  have R0 : 0 ≤ c.r / 255 := div_nonneg r0 (by norm_num)
+  have G0 : 0 ≤ c.g / 255 := div_nonneg g0 (by norm_num)
+  have B0 : 0 ≤ c.b / 255 := div_nonneg b0 (by norm_num)
+  have R1 : c.r / 255 ≤ 1 := by rw [div_le_one (by norm_num)]; exact r1
+  have G1 : c.g / 255 ≤ 1 := by rw [div_le_one (by norm_num)]; exact g1
+  have B1 : c.b / 255 ≤ 1 := by rw [div_le_one (by norm_num)]; exact b1
+  have hmn0 := minOf_ge _ _ _ 0 R0 G0 B0
+  have hmnle := minOf_le (c.r / 255) (c.g / 255) (c.b / 255)
+  have hge := le_maxOf (c.r / 255) (c.g / 255) (c.b / 255)
+  have hmx1 : maxOf CQuirks.spec (c.r / 255) (c.g / 255) (c.b / 255) ≤ 1 := by
+    rcases maxOf_mem CQuirks.spec (c.r / 255) (c.g / 255) (c.b / 255) with e | e | e <;> rw [e] <;> assumption
+  have hle : minOf (c.r / 255) (c.g / 255) (c.b / 255) ≤ maxOf CQuirks.spec (c.r / 255) (c.g / 255) (c.b / 255) :=
+    le_trans hmnle.1 hge.1
+  have step : (c.toHwba CQuirks.spec).toHsla CQuirks.spec =
+      (Hwba.new CQuirks.spec (c.toHsla CQuirks.spec).h (minOf (c.r / 255) (c.g / 255) (c.b / 255))
+        (1 - maxOf CQuirks.spec (c.r / 255) (c.g / 255) (c.b / 255)) c.a).toHsla CQuirks.spec := by
+    unfold Rgba.toHwba
+    simp only [min3_div, max3_div, Rgba.toHsla_alpha c CQuirks.spec a0 a1]
+  rw [step, hwb_toHsla_eval _ _ _ _ hmn0 hle hmx1 a0 a1]
+  by_cases hne : maxOf CQuirks.spec (c.r / 255) (c.g / 255) (c.b / 255) = minOf (c.r / 255) (c.g / 255) (c.b / 255)
+  · have hb : (maxOf CQuirks.spec (c.r / 255) (c.g / 255) (c.b / 255) ==
+        minOf (c.r / 255) (c.g / 255) (c.b / 255)) = true := by rw [beq_iff_eq]; exact hne
+    have hto : c.toHsla CQuirks.spec =
+        Hsla.new CQuirks.spec 0 0 (maxOf CQuirks.spec (c.r / 255) (c.g / 255) (c.b / 255)) c.a false := by
+      unfold Rgba.toHsla
+      simp only [hb, if_true]
+    rw [hto, hne]
+    generalize minOf (c.r / 255) (c.g / 255) (c.b / 255) = m
+    have d0 : degMod CQuirks.spec (0 : Rat) = 0 := degMod_id _ 0 (le_refl _) (by norm_num)
+    have hh : (Hsla.new CQuirks.spec (0 : Rat) 0 m c.a false).h = 0 := d0
+    have hm : (m + m) / 2 = m := by ring
+    have hz : m - m = 0 := by ring
+    rw [hh, hm, hz, zero_div, ite_self]
+  · obtain ⟨d0, k0, k6, -, -, -⟩ := sector (c.r / 255) (c.g / 255) (c.b / 255) hne
+    rw [Rgba.toHsla_nongray c hne]
+    generalize hk : hueK (c.r / 255) (c.g / 255) (c.b / 255) = k at *
+    generalize hmx : maxOf CQuirks.spec (c.r / 255) (c.g / 255) (c.b / 255) = mx at *
+    generalize hmn : minOf (c.r / 255) (c.g / 255) (c.b / 255) = mn at *
+    have hdeg : degMod CQuirks.spec (k * (360 / 6)) = k * (360 / 6) :=
+      degMod_id _ _ (by linarith) (by linarith)
+    have hh : ∀ s l a, (Hsla.new CQuirks.spec (k * (360 / 6)) s l a false).h = k * (360 / 6) := by
+      intro s l a; exact hdeg
+    rw [hh]
+    have l0 : ((mx + mn) / 2 == (0 : Rat)) = false := by
+      rw [beq_eq_false_iff_ne]; intro e; linarith
+    have l1 : ((mx + mn) / 2 == (1 : Rat)) = false := by
+      rw [beq_eq_false_iff_ne]; intro e; linarith
+    simp only [l0, l1, Bool.or_self, Bool.false_eq_true, if_false]
+    congr 1
+    by_cases h1 : 1 < mx + mn
+    · rw [if_pos h1]
+      have : cmin ((mx + mn) / 2) (1 - (mx + mn) / 2) = 1 - (mx + mn) / 2 := by
+        unfold cmin; split_ifs <;> linarith
+      rw [this]
+      have n1 : 1 - (mx + mn) / 2 ≠ 0 := by linarith
+      have n2 : -(mx + mn) + 2 ≠ 0 := by linarith
+      rw [div_eq_div_iff n1 n2]; ring
+    · rw [if_neg h1]
+      have : cmin ((mx + mn) / 2) (1 - (mx + mn) / 2) = (mx + mn) / 2 := by
+        unfold cmin; split_ifs <;> linarith
+      rw [this]
+      have n1 : (mx + mn) / 2 ≠ 0 := by linarith
+      have n2 : mx + mn ≠ 0 := by linarith
+      rw [div_eq_div_iff n1 n2]; ring
+
+/-- `rgb → hwb → rgb` is the identity on every well-formed rgba value (specified model) -/
+theorem Rgba.hwb_roundtrip (c : Rgba Rat) (h : c.WF) :
+    ((c.toHwba CQuirks.spec).toRgba CQuirks.spec).r = c.r ∧ ((c.toHwba CQuirks.spec).toRgba CQuirks.spec).g = c.g ∧
+    ((c.toHwba CQuirks.spec).toRgba CQuirks.spec).b = c.b ∧ ((c.toHwba CQuirks.spec).toRgba CQuirks.spec).a = c.a := by
+  show (((c.toHwba CQuirks.spec).toHsla CQuirks.spec).toRgba).r = c.r ∧ _
+  unfold Hwba.toRgba
+  rw [Rgba.hwb_toHsla_eq c h]
+  exact Rgba.hsl_roundtrip c h
+
+
+/-- `Hwba::new` (specified) on the channels of a well-formed hwba value keeps them, with any hue -/
+theorem Hwba.new_id (w : Hwba Rat) (h : w.WF) (hue : Rat) :
+    Hwba.new CQuirks.spec hue w.w w.b w.a = { w with h := hue } := by
+  obtain ⟨⟨w0, w1⟩, ⟨b0, b1⟩, hs, ⟨a0, a1⟩⟩ := h
+  have : ¬ (1 < w.w + w.b) := by linarith
+  simp only [Hwba.new, CQuirks.spec, Bool.false_eq_true, if_false, clamp_id 0 1 w.w w0 w1,
+    clamp_id 0 1 w.b b0 b1, this, clamp_id 0 1 w.a a0 a1]
+
+/-- the hsl form (hence the rgba) of an hwba value depends on its hue only through `deg_mod` -/
+theorem Hwba.toHsla_hue_congr (w : Hwba Rat) (h1 h2 : Rat)
+    (e : degMod CQuirks.spec h1 = degMod CQuirks.spec h2) :
+    ({ w with h := h1 } : Hwba Rat).toHsla CQuirks.spec = ({ w with h := h2 } : Hwba Rat).toHsla CQuirks.spec := by
+  simp only [Hwba.toHsla, Hsla.new, e]
+
 end Color
